@@ -522,6 +522,13 @@ func (rl *Shell) transposeWords() {
 		transposeWith, toTranspose = toTranspose, transposeWith
 	}
 
+	// The two words must be distinct and in order, otherwise
+	// (same word, negative argument...) there is nothing to do.
+	if wbpos < 0 || wepos > tbpos || tepos > rl.line.Len() {
+		rl.cursor.Set(startPos)
+		return
+	}
+
 	// Assemble the newline
 	begin := string((*rl.line)[:wbpos])
 	newLine := append([]rune(begin), []rune(toTranspose)...)
